@@ -324,6 +324,49 @@ def oob_other_dir_scenario(viol):
         pr.destroy()
 
 
+def spellings_of_a_locked_target_scenario(viol):
+    """One command names one file through several spellings (`slow ./slow sub/../slow $PWD/slow link/slow`) while another
+    command is building it: one record, one lock and ONE build — the second command waits and then finds the target
+    built; the script runs once for the first command and at most once for the second (a forced `redo`), never once per
+    spelling."""
+    import subprocess, time
+    from proj import Project, clean_env
+    pr = Project()
+    try:
+        os.makedirs(pr.path("sub"))
+        os.makedirs(pr.path("real"))
+        os.symlink(".", pr.path("link"))
+        pr.write("slow.do", "echo ran >>slow.runs\n: >slow.started\nwhile [ ! -e release ]; do sleep 0.05; done\necho slow\n")
+        p1 = subprocess.Popen(["redo", "slow"], cwd=pr.root, env=clean_env(), stdin=subprocess.DEVNULL, stdout=subprocess.PIPE, stderr=subprocess.PIPE, start_new_session=True)
+        t0 = time.time()
+        while not os.path.exists(pr.path("slow.started")) and time.time() - t0 < 20:
+            time.sleep(0.05)
+        sp = ["slow", "./slow", "sub/../slow", pr.path("slow"), "link/slow"]
+        p2 = subprocess.Popen(["redo"] + sp, cwd=pr.root, env=clean_env(), stdin=subprocess.DEVNULL, stdout=subprocess.PIPE, stderr=subprocess.PIPE, start_new_session=True)
+        time.sleep(1.0)
+        pr.write("release", "")
+        outs = []
+        for p in (p1, p2):
+            try:
+                o, e = p.communicate(timeout=60)
+            except subprocess.TimeoutExpired:
+                p.kill()
+                o, e = p.communicate()
+            outs.append((p.returncode, e.decode("utf-8", "replace")[-600:]))
+        runs = len((pr.read("slow.runs") or b"").split())
+        problems = []
+        if outs[0][0] != 0 or outs[1][0] != 0:
+            problems.append("exit statuses %s and %s" % (outs[0][0], outs[1][0]))
+        if runs > 2:
+            problems.append("slow.do ran %d times: once for the first command and %d times for the five spellings of the second" % (runs, runs - 1))
+        if problems:
+            pth = write_replay("C15", "spellings-locked", dict(kind="impl-monitor", clause="every spelling of a path denotes the same target: one record, one lock, one build", spellings=[x.replace(pr.root, "$ROOT") for x in sp], runs=runs, commands=outs,
+                                                               scenario="redo slow (script waits for a file); meanwhile redo slow ./slow sub/../slow $ROOT/slow link/slow (link -> .); then the file is created"))
+            viol.append(Violation("C15", pth, "several spellings of a target that another command is building: " + "; ".join(problems)))
+    finally:
+        pr.destroy()
+
+
 def base_discovery_scenario(viol):
     """Which project database a command uses must not depend on how its targets are spelled: with `.redo` in p/sub,
     `$ABS/p/other/../sub/x` and `../other/../sub/x` (run in p/sub) are the x of that project — no second `.redo`
@@ -530,6 +573,8 @@ def run(ctx):
         oob_other_dir_scenario(viol)
     if not viol:
         base_discovery_scenario(viol)
+    if not viol:
+        spellings_of_a_locked_target_scenario(viol)
     bsl = base_level(ctx, random.Random(ctx["seed"] * 103 + 15), viol) if not viol else {}
     fss = fs_semantics_level(ctx, random.Random(ctx["seed"] * 101 + 15), viol) if not viol else {}
     distinct = len(set(lines))
